@@ -178,6 +178,30 @@ func TestC10(t *testing.T) {
 				t.Fatalf("%v", err)
 			}
 		})
+		rec.Rapid(t, "long_history", evid.Pick(1500, 20000), func(t *rapid.T) {
+			// games that go on past a halfmove clock of 100 and 127, histories of up to 400 plies
+			root, _ := gen.Root(t)
+			if gen.Chance(t, 1, 2, "startpos") {
+				root = refchess.MustFEN(gen.StartFEN)
+			}
+			root = root.NormEP()
+			root.Half = 0
+			c := Case{FEN: root.FEN()}
+			pre, mid := gen.LongShuffle(t, root, 60, 200)
+			for _, m := range pre {
+				c.Moves = append(c.Moves, m.String())
+			}
+			c.Moves = append(c.Moves, gen.HistoryOpt(t, mid, 200, false)...)
+			rec.Class("long_history")
+			if len(c.Moves) >= 128 {
+				rec.Class("history>=128_plies")
+			}
+			err, _ := checkCase(c, rec)
+			if err != nil {
+				rec.Fail("long_history", err.Error(), c)
+				t.Fatalf("%v", err)
+			}
+		})
 		rec.Rapid(t, "raw_ep_start", evid.Pick(6000, 60000), func(t *rapid.T) {
 			// start FEN with a raw en-passant target (after a double push), capturable or not
 			var root refchess.Pos
